@@ -84,6 +84,13 @@ func (raceHarness) Gen(r *verifsim.SplitMix, tier string, idx int) any {
 	sp.Bogus = r.Chance(1, 4)
 	if r.Chance(1, 4) {
 		sp.Sched = &verifsim.Strategy{Kind: []string{"rand", "weighted", "pct"}[r.Intn(3)], Seed: r.Next(), D: r.Intn(3), Horizon: 200, MaxW: 6}
+		if r.Chance(1, 2) {
+			// the machine stalls now and then (a runnable goroutine is not run while the
+			// clock moves on and handshakes complete): the prober's own goroutines race its
+			// caller
+			sp.Sched.StallPer = 200 + r.Intn(600)
+			sp.Sched.StallBudgetMs = 3000
+		}
 	}
 	return sp
 }
